@@ -303,7 +303,7 @@ def run(ctx):
         return (u["mem"] or u["ret"] or u["ctor"]) if kind == "pay" else u[kind]
 
     for (t, v), base in zip(flat, bases):
-        cs = [("CX []", lambda b: b)] + H.corruptions(r, base, quick, cap=70 if quick else 200)
+        cs = [("CX []", lambda b: b)] + H.corruptions(r, base, quick, cap=58 if quick else 200)
         corr.append(cs)
         ct = f"(TTuple [{A.coq_ty(t)}])"
         pre = f"let t := {ct} in let base := enc t (VList [{A.coq_val(t, v)}]) in "
